@@ -261,26 +261,50 @@ def check_moving_average(chk, prog, sim, maxlen):
         chk.analysed(up["pretty"])
         ug = sim.identity_gargs(up)
         sty = subst(up["sig_inputs"][0], ug)["ty"]
-        fields = sim.adt_fields(sty)
+        import layout
         ok = True
         per_variant[variant] = {}
+        # where the stream keeps its queue(s) and its window, whatever the layout: one queue of Datum<T>, or parallel queues of
+        # timestamps and of payloads; the window is the Time leaf
+        lv = layout.leaves(sim, sty, stop=("Reference", "VecDeque", "Time", "Result"))
+        qs = [(n, t, p) for (n, t, p) in lv if is_adt(t, "VecDeque")]
+        ws = [(n, t, p) for (n, t, p) in lv if is_adt(t, "Time")]
+        if len(ws) != 1 or not qs:
+            raise AnchorMissing("MovingAverageStream window / queue")
+        qdatum = [q for q in qs if is_adt(q[1]["args"][0], "Datum")]
+        qtime = [q for q in qs if is_adt(q[1]["args"][0], "Time")]
+        qpay = [q for q in qs if q not in qdatum and q not in qtime]
+        if not ((len(qdatum) == 1 and len(qs) == 1) or (len(qtime) == 1 and len(qpay) == 1 and len(qs) == 2)):
+            raise AnchorMissing("MovingAverageStream queue layout (one queue of Datum, or one of Time and one of payloads)")
+        wsym = Sym("self.%s.0" % ws[0][0], prim("i64"))
+        time_ty = ws[0][1]
+
+        def read_queue(val):
+            """[(timestamp i64 value, payload)] of the queued samples of a (resolved) stream value"""
+            if qdatum:
+                q = layout.get_path(sim, None, val, qdatum[0][2])
+                return [(el.fields[0].fields[0], el.fields[1]) for el in q.data[0]]
+            qt = layout.get_path(sim, None, val, qtime[0][2])
+            qp = layout.get_path(sim, None, val, qpay[0][2])
+            if len(qt.data[0]) != len(qp.data[0]):
+                raise S.Unsupported("the timestamp queue and the payload queue have different lengths: %d / %d" % (len(qt.data[0]), len(qp.data[0])))
+            return [(t_.fields[0], v_) for t_, v_ in zip(qt.data[0], qp.data[0])]
         for k in range(0, maxlen + 1):
             st = S.State()
             sv = sim.expand(st, Sym("self", sty))
-            fs = list(sv.fields)
-            qi = [i for i, (n, t) in enumerate(fields) if is_adt(t, "VecDeque")][0]
-            wi = [i for i, (n, t) in enumerate(fields) if is_adt(t, "Time")][0]
-            ety = fields[qi][1]["args"][0]
-            tfs = sim.adt_fields(ety)
-            elems = []
+            samples = []
             for j in range(k):
-                val = sample_value(sim, prog, up, "q%d" % j) or Sym("vq%d" % j, tfs[1][1])
-                elems.append(Struct(ety, (Struct(tfs[0][1], (Sym("tq%d" % j, prim("i64")),)), val)))
-            fs[qi] = M.mk_list(elems, fields[qi][1])
-            sv = Struct(sty, fs)
+                pty = (sim.adt_fields(qdatum[0][1]["args"][0])[1][1] if qdatum else qpay[0][1]["args"][0])
+                val = sample_value(sim, prog, up, "q%d" % j) or Sym("vq%d" % j, pty)
+                samples.append((Struct(time_ty, (Sym("tq%d" % j, prim("i64")),)), val))
+            if qdatum:
+                ety = qdatum[0][1]["args"][0]
+                sv = layout.set_path(sim, st, sv, qdatum[0][2], M.mk_list([Struct(ety, (t_, v_)) for t_, v_ in samples], qdatum[0][1]))
+            else:
+                sv = layout.set_path(sim, st, sv, qtime[0][2], M.mk_list([t_ for t_, _v in samples], qtime[0][1]))
+                sv = layout.set_path(sim, st, sv, qpay[0][2], M.mk_list([v_ for _t, v_ in samples], qpay[0][1]))
             oid = st.new_obj("self", sv)
             st.labels[oid] = "self"
-            wsym = Sym("self.%s.0" % fields[wi][0], prim("i64"))
             sim.assume_int_rel(st, wsym, Const(0), ">")
             times = [Sym("tq%d" % j) for j in range(k)] + [Sym("tn")]
             for a, b in zip(times, times[1:]):
@@ -305,17 +329,21 @@ def check_moving_average(chk, prog, sim, maxlen):
                     ok = False
                     continue
                 post = sim.final_value(leaf.state, leaf.state.mem[oid])
-                q = post.fields[qi]
-                kept = list(q.data[0])
-                vi = [i for i, (n, t) in enumerate(fields) if is_adt(t, "Result")][0]
-                out = K.classify_output(sim, leaf.state, post.fields[vi])
+                try:
+                    kept = read_queue(post)
+                except S.Unsupported as e:
+                    chk.violation("C12.value", key + ":queues", "moving average after a present sample: %s" % e, fn=up["pretty"], file=loc(up["span"]))
+                    ok = False
+                    continue
+                gls = [g_ for g_ in N.get_on(sim, get, sim.identity_gargs(get), leaf.state, oid)]
+                out = K.classify_output(sim, gls[0].state, gls[0].value) if len(gls) == 1 and gls[0].kind == "return" else None
                 if not (out and out[0] == "S" and out[1] == Sym("tn")):
                     chk.violation("C12.value", key + ":output", "moving average output after a present sample is %r" % (out,), fn=up["pretty"], file=loc(up["span"]))
                     ok = False
                     continue
                 # which samples survive: the new one, and exactly those queued samples that are not older than the window start (tn - window);
                 # decided per sample from the leaf's path condition
-                kept_times = [repr(sim.resolve(leaf.state, el.fields[0].fields[0])) for el in kept]
+                kept_times = [repr(sim.resolve(leaf.state, el[0])) for el in kept]
                 membership_bad = None
                 if "tn" not in kept_times:
                     membership_bad = "the new sample is not in the queue after the update"
@@ -359,13 +387,13 @@ def check_moving_average(chk, prog, sim, maxlen):
                     starts = [tn - w]
                     ends = []
                     for el in kept:
-                        e_i = A.to_sympy(el.fields[0].fields[0])
+                        e_i = A.to_sympy(el[0])
                         ends.append(e_i)
                     starts += ends[:-1]
                     weights_num = []
                     for el, e_i, s_i in zip(kept, ends, starts):
-                        exp += payload_expr(el.fields[1]) * ((e_i - s_i) / 10**9)
-                        weights_num.append((el.fields[0].fields[0], e_i - s_i))
+                        exp += payload_expr(el[1]) * ((e_i - s_i) / 10**9)
+                        weights_num.append((el[0], e_i - s_i))
                     exp = exp / (w / 10**9)
                     good = A.equal(got, exp)
                 except Exception as ex:
@@ -380,7 +408,7 @@ def check_moving_average(chk, prog, sim, maxlen):
                 # constant input -> constant (weights sum to the window)
                 vs = {}
                 for el in kept:
-                    for s_ in payload_expr(el.fields[1]).free_symbols:
+                    for s_ in payload_expr(el[1]).free_symbols:
                         vs[s_] = sp.Symbol("c")
                 if not A.equal(got.subs(vs, simultaneous=True), sp.Symbol("c")):
                     chk.violation("C12.weights", "%s:sum:k=%d" % (key, k), "moving average weights do not sum to the window (constant input gives %s)" % A.show(got.subs(vs, simultaneous=True)), fn=up["pretty"])
@@ -388,7 +416,7 @@ def check_moving_average(chk, prog, sim, maxlen):
                 # non-negativity of each weight under the path condition
                 prev_t = None
                 for idx, el in enumerate(kept):
-                    t_i = el.fields[0].fields[0]
+                    t_i = el[0]
                     if idx == 0:
                         d = int_add(int_sub(t_i, Sym("tn")), wsym)     # e_0 - (t - window)
                         al = rel_allowed(sim, leaf.state, d, Const(0))
@@ -405,28 +433,33 @@ def check_moving_average(chk, prog, sim, maxlen):
         ev = per_variant[variant].setdefault("__events__", {})
         for k in range(0, 3):
             for cat in ("E", "N"):
-                for cache in ("err", "none"):
-                    st = S.State()
-                    sv = sim.expand(st, Sym("self", sty))
-                    fs = list(sv.fields)
-                    qi = [i for i, (n, t) in enumerate(fields) if is_adt(t, "VecDeque")][0]
-                    vi = [i for i, (n, t) in enumerate(fields) if is_adt(t, "Result")][0]
-                    ety = fields[qi][1]["args"][0]
-                    fs[qi] = M.mk_list([Sym("q%d" % j, ety) for j in range(k)], fields[qi][1])
-                    vty = fields[vi][1]
-                    fs[vi] = sim.mk_enum(vty, "Err", [Sym("eold", vty["args"][1])]) if cache == "err" else sim.mk_enum(vty, "Ok", [sim.mk_enum(vty["args"][0], "None")])
-                    oid = st.new_obj("self", Struct(sty, fs))
-                    st.labels[oid] = "self"
-                    outs = set()
-                    for leaf in N.update_with(sim, up, ug, st, oid, cat, "n"):
-                        chk.evaluated(1)
-                        if leaf.kind != "return":
-                            outs.add((leaf.kind,))
-                            continue
-                        post = sim.final_value(leaf.state, leaf.state.mem[oid])
-                        c = K.classify_output(sim, leaf.state, post.fields[vi])
-                        outs.add((len(post.fields[qi].data[0]), c[0] if c else "?"))
-                    ev[(k, cat, cache)] = outs
+                st = S.State()
+                sv = sim.expand(st, Sym("self", sty))      # the cached output stays symbolic: update / get fork on it themselves
+                if qdatum:
+                    ety = qdatum[0][1]["args"][0]
+                    sv = layout.set_path(sim, st, sv, qdatum[0][2], M.mk_list([Sym("q%d" % j, ety) for j in range(k)], qdatum[0][1]))
+                else:
+                    sv = layout.set_path(sim, st, sv, qtime[0][2], M.mk_list([Sym("qt%d" % j, qtime[0][1]["args"][0]) for j in range(k)], qtime[0][1]))
+                    sv = layout.set_path(sim, st, sv, qpay[0][2], M.mk_list([Sym("qv%d" % j, qpay[0][1]["args"][0]) for j in range(k)], qpay[0][1]))
+                oid = st.new_obj("self", sv)
+                st.labels[oid] = "self"
+                outs = set()
+                for leaf in N.update_with(sim, up, ug, st, oid, cat, "n"):
+                    chk.evaluated(1)
+                    if leaf.kind != "return":
+                        outs.add((leaf.kind,))
+                        continue
+                    post = sim.final_value(leaf.state, leaf.state.mem[oid])
+                    try:
+                        qlen = len(read_queue(post))
+                    except S.Unsupported:
+                        qlen = "?"
+                    kinds = []
+                    for g_ in N.get_on(sim, get, sim.identity_gargs(get), leaf.state, oid):
+                        c = K.classify_output(sim, g_.state, g_.value) if g_.kind == "return" else None
+                        kinds.append(c[0] if c else g_.kind)
+                    outs.add((qlen, tuple(sorted(kinds))))
+                ev[(k, cat)] = outs
         if ok:
             chk.discharge(key)
     ea, eb = per_variant.get("generic", {}).pop("__events__", {}), per_variant.get("Quantity", {}).pop("__events__", {})
